@@ -6,6 +6,7 @@ import (
 	"fmt"
 	"os"
 	"reflect"
+	"sort"
 	"strings"
 	"sync"
 	"testing"
@@ -305,19 +306,29 @@ func TestPoolHygiene(t *testing.T) {
 				in := rapid.SampledFrom(inputs).Draw(rt, "input")
 				simple := rapid.Bool().Draw(rt, "simple")
 				lt := rapid.IntRange(0, 4).Draw(rt, "long")
-				hist = append(hist, fmt.Sprintf("decode(%q,simple=%v,long=%d)", in, simple, lt))
+				// the other decoder settings: left alone (the defaults must be in force, whatever the previous
+				// user of the pooled decoder chose) or set to generated values
+				setAll := rapid.Bool().Draw(rt, "setEverySetting")
+				rtp, mt, st, lst := 0, 0, 0, 0
+				if setAll {
+					rtp, mt, st, lst = rapid.IntRange(0, 2).Draw(rt, "real"), rapid.IntRange(0, 1).Draw(rt, "map"), rapid.IntRange(0, 1).Draw(rt, "struct"), rapid.IntRange(0, 1).Draw(rt, "list")
+				}
+				hist = append(hist, fmt.Sprintf("decode(%q,simple=%v,long=%d,set=%v real=%d map=%d struct=%d list=%d)", in, simple, lt, setAll, rtp, mt, st, lst))
 				ev.S.Begin("pool-hygiene", desc())
 				run := func(dec *hio.Decoder) (string, string) {
 					var v interface{}
 					p := guard(func() {
 						dec.LongType = hio.LongType(lt)
+						if setAll {
+							dec.RealType, dec.MapType, dec.StructType, dec.ListType = hio.RealType(rtp), hio.MapType(mt), hio.StructType(st), hio.ListType(lst)
+						}
 						dec.Decode(&v)
 					})
 					e := fmt.Sprint(dec.Error)
 					if p != "" {
 						e = "panic"
 					}
-					return uni.FromGo(reflect.ValueOf(&v).Elem()).String(), e
+					return uni.FromGo(reflect.ValueOf(&v).Elem()).String() + " as " + typeShape(reflect.ValueOf(&v).Elem(), 0), e
 				}
 				pd := hio.GetDecoder().Simple(simple).ResetBytes([]byte(in))
 				gv, ge := run(pd)
@@ -418,6 +429,46 @@ func TestPoolHygiene(t *testing.T) {
 		})
 		ev.S.Case("pool-hygiene", desc(), interesting, "pool")
 	})
+}
+
+// typeShape spells the Go types a generic decode produced (which the neutral comparison deliberately ignores):
+// []int versus []interface{}, T versus *T, map[string]... versus map[interface{}]...
+func typeShape(v reflect.Value, depth int) string {
+	if depth > 6 || !v.IsValid() {
+		return "?"
+	}
+	switch v.Kind() {
+	case reflect.Interface:
+		if v.IsNil() {
+			return "nil"
+		}
+		return typeShape(v.Elem(), depth+1)
+	case reflect.Ptr:
+		if v.IsNil() {
+			return "*" + v.Type().Elem().String() + "(nil)"
+		}
+		return "*" + typeShape(v.Elem(), depth+1)
+	case reflect.Slice, reflect.Array:
+		if v.Type().Elem().Kind() != reflect.Interface {
+			return v.Type().String()
+		}
+		out := v.Type().String() + "{"
+		for i := 0; i < v.Len() && i < 4; i++ {
+			out += typeShape(v.Index(i), depth+1) + ","
+		}
+		return out + "}"
+	case reflect.Map:
+		if v.Type().Elem().Kind() != reflect.Interface {
+			return v.Type().String()
+		}
+		var parts []string
+		for _, k := range v.MapKeys() {
+			parts = append(parts, typeShape(v.MapIndex(k), depth+1))
+		}
+		sort.Strings(parts)
+		return v.Type().String() + "{" + strings.Join(parts, ",") + "}"
+	}
+	return v.Type().String()
 }
 
 func guard(f func()) (p string) {
